@@ -57,7 +57,7 @@ def parseFields (s : String) : List (String × String) :=
     | _ => none
 
 /-- check one generation; returns (worst comparison code, name of the worst field) -/
-def checkGen (n mu rec : Nat) (before after : String) : Option (Nat × String) := do
+def checkGen (n mu rec : Nat) (lb : Float) (before after : String) : Option (Nat × String) := do
   let fb := parseFields before
   let fa := parseFields after
   let sc := (field fb "S").splitOn ","
@@ -73,7 +73,7 @@ def checkGen (n mu rec : Nat) (before after : String) : Option (Nat × String) :
   let d : Dist Float := { sigma := sigma, mean := mean, pc := pc, ps := ps, C := chunk n C, counter := counter }
   let d' := update FF c n d sel (chunk n B)
   let ev ← (parseBits (field fa "EV")).map Float.ofBits
-  let s' := clampSigma FF 1e-40 d'.sigma ev
+  let s' := clampSigma FF lb d'.sigma ev
   let aS ← (parseBits (field fa "S")).map Float.ofBits
   let aM ← floats (field fa "M"); let aPC ← floats (field fa "PC"); let aPS ← floats (field fa "PS")
   let aC ← floats (field fa "C"); let aBP ← floats (field fa "BP")
@@ -98,9 +98,11 @@ def xtrace (line : String) : String :=
     let fh := parseFields hdr
     match (field fh "n").toNat?, (field fh "mu").toNat?, (field fh "rec").toNat? with
     | some n, some mu, some rec =>
+      -- `CMA::setLowerBound` (after init): the bound of the numerical-stability clamp; 1e-40 unless the header says otherwise
+      let lb := match parseBits (field fh "lb") with | some b => Float.ofBits b | none => 1e-40
       let rs := gens.map fun g =>
         match g.splitOn " > " with
-        | [b, a] => checkGen n mu rec b a
+        | [b, a] => checkGen n mu rec lb b a
         | _ => none
       match rs.findIdx? (fun r => match r with | none => true | some (c, _) => c == 2) with
       | some i => s!"MISMATCH generation {i} {match rs.getD i none with | some (_, f) => f | none => "unparsable"}"
@@ -275,13 +277,23 @@ def xcmsa (line : String) : String :=
       verdict rs
     | _, _ => "bad-op"
 
+/-- the `noise=` field of a `cemtrace` header: `none` | `const:<c>` | `lin:<a>:<b>` (`CrossEntropyMethod::setNoiseType`) -/
+def parseNoise (t : String) : Option (CemNoise Float) :=
+  match t.splitOn ":" with
+  | [""] | ["none"] => some CemNoise.default
+  | ["const", c] => (parseBits c).map fun c => CemNoise.const (Float.ofBits c)
+  | ["lin", a, b] => do
+    let a ← parseBits a; let b ← parseBits b
+    some (CemNoise.linear (Float.ofBits a) (Float.ofBits b))
+  | _ => none
+
 def xcem (line : String) : String :=
   match line.splitOn " | " with
   | [] => "bad-op"
   | hdr :: gens =>
     let fh := parseFields hdr
-    match (field fh "n").toNat?, (field fh "mu").toNat? with
-    | some n, some mu =>
+    match (field fh "n").toNat?, (field fh "mu").toNat?, parseNoise (field fh "noise") with
+    | some n, some mu, some noise =>
       let rs := gens.map fun g =>
         match g.splitOn " > " with
         | [b, a] => do
@@ -289,11 +301,64 @@ def xcem (line : String) : String :=
           let fv ← floats (field fb "F"); let xs ← floats (field fb "X")
           let off : List (List Float × Float) := List.zip (chunk n xs) fv
           let sel := gselect off mu
-          let (m, v) := cemUpdate (0.0 : Float) n (sel.map (·.1))
+          -- `m_counter` is incremented before `updateStrategyParameters` reads the noise term
+          let t := (field fb "T").toNat?.getD 0 + 1
+          let (m, v) := cemUpdate (cemNoise noise t) n (sel.map (·.1))
           match sel.head? with
           | some best =>
             let w := worstOf [("mean", cmpVec m (← floats (field fa "M"))), ("variance", cmpVec v (← floats (field fa "V"))),
               ("bestPoint", cmpVec best.1 (← floats (field fa "BP"))), ("bestValue", cmpNum 0 best.2 (← fnum fa "BV"))]
+            if w.1 == 2 && hasTies fv && off.length > 16 then some (3, "ties") else some w
+          | none => some (2, "empty")
+        | _ => none
+      verdict rs
+    | _, _, _ => "bad-op"
+
+/-- comparison behind a cancellation: equal within the usual tolerance, or within the absolute error `extra` that the
+cancellation can amplify rounding differences to -/
+def cmpVecAbs (extra : Float) (a b : List Float) : Nat :=
+  let c := cmpVec a b
+  if c ≤ 1 then c
+  else if a.length == b.length && (List.zipWith (fun x y => decide ((x - y).abs ≤ extra)) a b).all id then 1 else 2
+
+open SharkVerif.Gen.CMAParams in
+/-- `xvdcma`: one-step refinement of `VDCMA::updateStrategyParameters` (constants from the regenerated formulas; the inner
+products and norms go through remora's kernels: toleranced like the CMA trace) -/
+def xvdcma (line : String) : String :=
+  match line.splitOn " | " with
+  | [] => "bad-op"
+  | hdr :: gens =>
+    let fh := parseFields hdr
+    match (field fh "n").toNat?, (field fh "mu").toNat? with
+    | some n, some mu =>
+      let w := normalise ((List.range mu).map fun i => vdcma_rawWeight FF mu i)
+      let k := vdcma_consts FF n (sumSq w)
+      let c : VdConsts Float := { weights := w, muEff := k.muEff, cSigma := k.cSigma, dSigma := k.dSigma, cC := k.cC, c1 := k.c1, cMu := k.cMu }
+      let rs := gens.map fun g =>
+        match g.splitOn " > " with
+        | [b, a] => do
+          let fb := parseFields b; let fa := parseFields a
+          let sc := (field fb "S").splitOn ","
+          let sigma ← (parseBits (sc.headD "")).map Float.ofBits
+          let counter ← (sc.getD 1 "").toNat?
+          let d : Vd Float := { sigma := sigma, counter := counter + 1, mean := ← floats (field fb "M"), pc := ← floats (field fb "PC"),
+                                ps := ← floats (field fb "PS"), D := ← floats (field fb "D"), vn := ← floats (field fb "VN"), normv := ← fnum fb "NV" }
+          let fv ← floats (field fb "F"); let xs ← floats (field fb "X"); let ys ← floats (field fb "Y")
+          let off : List (VdInd Float) := (List.zip fv (List.zip (chunk n xs) (chunk n ys))).map fun (f, x, y) => { point := x, y := y, fitness := f }
+          let sel := vdSelect off mu
+          let d' := vdUpdate FF c n d sel
+          -- `pc` contains `(m − mean)/σ`: the few-ulp differences between remora's and the model's weighted mean `m` are
+          -- amplified by `|m|/σ` (cancellation); D, v and |v| depend on `pc` through the rank-one term
+          let amax := fun (l : List Float) => l.foldl (fun m x => if x.abs > m then x.abs else m) 0
+          let extraPc := 1e-13 * amax (d'.mean ++ d.mean) / d.sigma
+          let extra := 8 * (1 + amax d'.pc) * extraPc
+          match sel.head? with
+          | some best =>
+            let w := worstOf [("sigma", cmpNum d'.sigma.abs d'.sigma (← fnum fa "S")), ("mean", cmpVec d'.mean (← floats (field fa "M"))),
+              ("pc", cmpVecAbs extraPc d'.pc (← floats (field fa "PC"))), ("ps", cmpVec d'.ps (← floats (field fa "PS"))),
+              ("D", cmpVecAbs extra d'.D (← floats (field fa "D"))), ("vn", cmpVecAbs extra d'.vn (← floats (field fa "VN"))),
+              ("normv", cmpVecAbs extra [d'.normv] [← fnum fa "NV"]),
+              ("bestPoint", cmpVec best.point (← floats (field fa "BP"))), ("bestValue", cmpNum 0 best.fitness (← fnum fa "BV"))]
             if w.1 == 2 && hasTies fv && off.length > 16 then some (3, "ties") else some w
           | none => some (2, "empty")
         | _ => none
@@ -307,6 +372,7 @@ def step (line : String) : String :=
   if l.startsWith "xecma " then xecma (l.drop 6).toString else
   if l.startsWith "xcmsa " then xcmsa (l.drop 6).toString else
   if l.startsWith "xcem " then xcem (l.drop 5).toString else
+  if l.startsWith "xvdcma " then xvdcma (l.drop 7).toString else
   let toks := (l.splitOn " ").filter (· ≠ "")
   match toks with
   | ["coeffs", kind, n, lambda, mu, rec] =>
